@@ -2,6 +2,8 @@
 # setup_cmd: build the hand-written Coq theories (full .vo build) from files on disk only.
 set -e
 HERE="$(cd "$(dirname "$0")/.." && pwd)"
+"$HERE/bin/mkcoqproject"
 cd "$HERE/coq"
 coq_makefile -f _CoqProject -o Makefile >/dev/null
-timeout 3000 make -j16
+mkdir -p "$HERE/_build"
+flock "$HERE/_build/.lock" timeout 3000 make -j16
